@@ -52,6 +52,14 @@ TIME_DTYPES = ['uint64', 'int64', 'int32']
 CM_DTYPES = ['uint32', 'int32', 'int64']
 
 
+def _tmpl_file(files):
+    """the template data file the loader reads (documented priority)"""
+    for n in ('templates.npy', 'templates.waveforms.npy'):
+        if n in files:
+            return n
+    return [n for n in sorted(files) if n.startswith('templates.waveforms.')][0]
+
+
 def _mk(rng, **force):
     """One abstract dataset with recorded options."""
     o = {
@@ -93,17 +101,47 @@ def _mk(rng, **force):
         tn = [n for n in files if n.startswith('spikes.times')][0]
         fr = sorted(s + rng.choice([0, 0.25, 0.5, 0.5, 0.75]) for s in sem['spike_samples'])
         files[tn]['data'] = [x / sem['rate'] for x in fr]
-    if o.get('both', rng.random() < 0.15):
-        # both naming conventions present for some attributes, with different contents: the documented
-        # priority (KS name first) decides
+    o['both'] = bool(o.get('both', rng.random() < 0.15))
+    if o['both']:
+        # both naming conventions present for some roles, with different (well-formed) contents: the documented
+        # priority (KS name first; templates.waveforms.npy before templates.waveforms.<label>.npy) decides
         nc = sem['n_channels']
         lab = ('.' + o['label']) if o['label'] else ''
+        ks = o['names'] == 'ks'
+
+        def other(ks_name, alf_name, perturb):
+            """add the file of the other convention for this role, content = perturbed copy"""
+            have, add = (ks_name, alf_name) if ks else (alf_name, ks_name)
+            if have in files and add not in files:
+                sp = copy.deepcopy(files[have])
+                sp['data'] = perturb(list(sp['data']))
+                files[add] = sp
         files['amplitudes.npy'] = {'dtype': 'float64', 'shape': [ns], 'data': [float(rng.randint(1, 9)) for _ in range(ns)]}
         files['spikes.amps%s.npy' % lab] = {'dtype': 'float64', 'shape': [ns], 'data': [float(rng.randint(1, 9)) for _ in range(ns)]}
         files['channel_shanks.npy'] = {'dtype': 'int32', 'shape': [nc], 'data': [rng.randrange(3) for _ in range(nc)]}
         files['channels.shanks%s.npy' % lab] = {'dtype': 'int32', 'shape': [nc], 'data': [rng.randrange(3) for _ in range(nc)]}
         files['channel_probe.npy'] = {'dtype': 'int32', 'shape': [nc], 'data': [rng.randrange(3) for _ in range(nc)]}
         files['channels.probes%s.npy' % lab] = {'dtype': 'int32', 'shape': [nc], 'data': [rng.randrange(3) for _ in range(nc)]}
+        neg = lambda d: [(-v if not isinstance(v, str) else v) for v in d]
+        rot = lambda d: d[1:] + d[:1]
+        r_ = rng.random()
+        if not ks and lab and (o.get('tmpl23') or r_ < 0.35):
+            # the second name of the list (templates.waveforms.npy) beats the third (templates.waveforms.<label>.npy)
+            sp = copy.deepcopy(files['templates.waveforms%s.npy' % lab])
+            sp['data'] = [(v * 2 if not isinstance(v, str) else v) for v in sp['data']]
+            files['templates.waveforms.npy'] = sp
+        elif r_ < 0.8:
+            other('templates.npy', 'templates.waveforms%s.npy' % lab, neg)
+        if rng.random() < 0.5:
+            other('channel_map.npy', 'channels.rawInd%s.npy' % lab, rot)
+        if rng.random() < 0.5:
+            other('channel_positions.npy', 'channels.localCoordinates%s.npy' % lab, lambda d: [v + 1.0 for v in d])
+        if rng.random() < 0.5 and sem['spike_clusters'] is None:
+            other('spike_templates.npy', 'spikes.templates%s.npy' % lab, lambda d: list(reversed(d)))
+        if ks and rng.random() < 0.5:
+            # ALF time files next to spike_times.npy are ignored
+            files['spikes.times%s.npy' % lab] = {'dtype': 'float64', 'shape': [ns], 'data': [float(i) for i in range(ns)]}
+            files['spikes.samples%s.npy' % lab] = {'dtype': 'int64', 'shape': [ns], 'data': [7 * i for i in range(ns)]}
     if sem['shanks'] is not None and sem['n_channels'] >= 4 and sem['n_channels'] % 2 == 0 and rng.random() < 0.5:
         # shanks stored as a 2-d table: the loader flattens it (reshape(-1))
         sn = [n for n in files if n.startswith(('channel_shanks', 'channels.shanks'))][0]
@@ -111,7 +149,7 @@ def _mk(rng, **force):
     if o['sparse']:
         # sparse template storage: (n_templates, n_samples, n_channels_loc) data + a column table of channel ids
         # (trailing -1 = unused column); no axis of length 1 (the loader squeezes)
-        tn = [n for n in files if n.startswith('templates')][0]
+        tn = _tmpl_file(files)
         nt_, nsw_, nc_ = files[tn]['shape']
         ncl = rng.randint(2, nc_)
         cols = []
@@ -120,14 +158,18 @@ def _mk(rng, **force):
             if ncl > 2 and rng.random() < 0.4:
                 row[-1] = -1
             cols.append(row)
-        dense = files[tn]['data']
-        data = [(dense[(t * nsw_ + s_) * nc_ + c] if c >= 0 else 0.0)
-                for t in range(nt_) for s_ in range(nsw_) for c in cols[t]]
-        files[tn] = {'dtype': files[tn]['dtype'], 'shape': [nt_, nsw_, ncl], 'data': data}
+        for tn_ in [n for n in files if n.startswith('templates') and 'Channels' not in n]:
+            dense = files[tn_]['data']
+            data = [(dense[(t * nsw_ + s_) * nc_ + c] if c >= 0 else 0.0)
+                    for t in range(nt_) for s_ in range(nsw_) for c in cols[t]]
+            files[tn_] = {'dtype': files[tn_]['dtype'], 'shape': [nt_, nsw_, ncl], 'data': data}
         lab_ = ('.' + o['label']) if o['label'] else ''
         cn = 'template_ind.npy' if o['names'] == 'ks' else 'templates.waveformsChannels%s.npy' % lab_
         files[cn] = {'dtype': rng.choice(['int32', 'int64', 'uint32']) if all(c >= 0 for r in cols for c in r) else rng.choice(['int32', 'int64']),
                      'shape': [nt_, ncl], 'data': [c for r in cols for c in r]}
+        if o['both'] and rng.random() < 0.5:
+            on = 'templates.waveformsChannels%s.npy' % lab_ if o['names'] == 'ks' else 'template_ind.npy'
+            files[on] = {'dtype': 'int32', 'shape': [nt_, ncl], 'data': [c for r in cols for c in reversed(r)]}
     if o['reorder']:
         D4.add_reorder(ds, rng, ns, o['vec2d'])
     if o['attrs']:
@@ -143,7 +185,7 @@ def _mk(rng, **force):
                 for _ in range(rng.randint(1, 2)):
                     d[rng.randrange(len(d))] = rng.choice(['nan', 'inf', '-inf'])
     if o['nan_template']:
-        tn = [n for n in files if n.startswith('templates')][0]
+        tn = _tmpl_file(files)
         per = files[tn]['shape'][1] * files[tn]['shape'][2]
         k = rng.randrange(files[tn]['shape'][0])
         files[tn]['data'][k * per:(k + 1) * per] = ['nan'] * per
@@ -151,7 +193,7 @@ def _mk(rng, **force):
         # a few NaN / inf entries inside a template: the template file is memory-mapped, so they must come back as they
         # are (only fully loaded arrays are scrubbed, only ALL-NaN templates are zeroed).  Uncurated datasets only: with
         # curated clusters phylib's cluster_waveforms does not accept NaN amplitudes (outside "well-formed").
-        tn = [n for n in files if n.startswith('templates') and 'Channels' not in n][0]
+        tn = _tmpl_file(files)
         d = files[tn]['data']
         for _ in range(rng.randint(1, 2)):
             d[rng.randrange(len(d))] = rng.choice(['nan', 'inf', '-inf'])
@@ -205,7 +247,8 @@ def generate(tier, rng):
         dict(names='ks', nan_template=True, nonmono=False),                          # all-NaN template (memmap r+)
         dict(names='ks', nonmono=True), dict(names='alf', nonmono=True, alf_samples=False),
         dict(names='alf', alf_samples=False, write_clusters=True, frac=True),
-        dict(names='alf', both=True), dict(names='ks', both=True),
+        dict(names='alf', both=True), dict(names='ks', both=True), dict(names='alf', both=True, label='probe00', sparse=True),
+        dict(names='ks', both=True, sparse=True), dict(names='alf', both=True, label='probe00', tmpl23=True), dict(names='alf', both=True, label='probe00', curated=False),
         dict(names='ks', raw=True, vec2d=True), dict(names='ks', whitening='tri', write_wmi=False),
         dict(names='ks', whitening='perm2', write_wmi=True),
         dict(names='ks', reorder=True, vec2d=True), dict(names='alf', reorder=True, attrs=True),
@@ -241,7 +284,7 @@ def generate(tier, rng):
         for _ in range(n_mal * 6):
             if got >= n_mal:
                 break
-            base = _mk(rng, nonmono=False, nan_template=False, route='kwargs', **BREAK_NEEDS.get(name, {}))
+            base = _mk(rng, nonmono=False, nan_template=False, route='kwargs', both=False, **BREAK_NEEDS.get(name, {}))
             bad = D4.break_dataset(base, name, rng)
             if bad is not None:
                 cases.append({'kind': 'malformed', 'inp': bad})
@@ -391,7 +434,7 @@ def dist(case, obs):
         return out + ['broken=%s' % o.get('broken')]
     for k in ('names', 'label', 'vec2d', 'write_clusters', 'id_dtype', 'time_dtype', 'cm_dtype', 'nan', 'nan_template',
               'attrs', 'nonmono', 'write_wmi', 'alf_samples', 'sparse', 'route', 'features', 'tfeatures', 'reorder',
-              'nan_partial', 'one_channel'):
+              'nan_partial', 'one_channel', 'both'):
         out.append('%s=%s' % (k, o[k]))
     f = case['inp']['files']
     out.append('raw=%s' % bool(case['inp'].get('raw')))
